@@ -9,7 +9,7 @@ drv_server ops (not verified; exercised on every line):
 tokens:  c<k>:<g|b|s|r> connect (good / bad / no credentials yet / connection reset at once) · k<k>:<g|b> the late
 credentials of a client that connected with s · d<k>:<n> release the object of the n-th lend · · p<k> call · l<k> call that lends an object ·
 o<k>:<n> use the object of the n-th lend (0-based, whole case) on connection k · g<k> graceful close ·
-a<k> abrupt close · X server close · i<k>:<letters> hostile frames given as items (h handled, e empty, b bad,
+a<k> abrupt close (FIN) · z<k> abrupt close by reset (RST; the same to the model) · X server close · i<k>:<letters> hostile frames given as items (h handled, e empty, b bad,
 t incomplete) · r<k>:<hex>[:<inhex>=<outhex|E>,..] hostile bytes (zlib results of the compressed frames supplied).
 
 Output: one segment per token joined by " ; ":
@@ -94,6 +94,7 @@ def parseTok (tok : String) : Option Tok :=
     | _ => none
   | 'g' :: cs => (parseNatChars cs).map (fun k => .op (.gracefulClose k))
   | 'a' :: cs => (parseNatChars cs).map (fun k => .op (.abruptClose k))
+  | 'z' :: cs => (parseNatChars cs).map (fun k => .op (.abruptClose k))
   | 'i' :: cs => match splitColon cs with
     | [k, its] => match parseNatChars k, parseItems its with
       | some k, some its => some (.op (.raw k its))
